@@ -39,7 +39,7 @@ impl Evidence {
             "wall_s": self.wall_s,
             "violations": self.violations,
         });
-        let dir = verif_root().join("evidence");
+        let dir = out_root().join("evidence");
         let _ = std::fs::create_dir_all(&dir);
         let path = dir.join(format!("{}.json", self.property_id));
         std::fs::write(&path, serde_json::to_string_pretty(&v).unwrap()).unwrap();
@@ -50,13 +50,18 @@ pub fn verif_root() -> PathBuf {
     PathBuf::from(std::env::var("VERIF_ROOT").unwrap_or_else(|_| "/verif".to_string()))
 }
 
+/// Where evidence and replay files go (exploratory background runs set VERIF_OUT).
+pub fn out_root() -> PathBuf {
+    std::env::var("VERIF_OUT").map(PathBuf::from).unwrap_or_else(|_| verif_root())
+}
+
 pub fn tier() -> String {
     std::env::var("VERIF_TIER").unwrap_or_else(|_| "quick".to_string())
 }
 
 /// Writes a replay file and returns its path.
 pub fn write_replay(property: &str, name: &str, v: &Value) -> PathBuf {
-    let dir = verif_root().join("replays").join(property);
+    let dir = out_root().join("replays").join(property);
     let _ = std::fs::create_dir_all(&dir);
     let path = dir.join(format!("{name}.json"));
     std::fs::write(&path, serde_json::to_string_pretty(v).unwrap()).unwrap();
